@@ -248,7 +248,28 @@ class DeployEngine(object):
             for v in members:
                 group_of[v] = gid
         located_groups = set()
-        # route endpoints for device vertices
+        line = getattr(g, "corridor", None)
+        if line:
+            # pin the relay line onto consecutive live chips joined by
+            # working links (in both directions), if the machine has such
+            def run_of(xy, l):
+                out_ = [xy]
+                while len(out_) < len(line):
+                    x, y = out_[-1]
+                    nxt = mv.step(x, y, l)
+                    if not mv.link_up(x, y, l) or not mv.has_chip(nxt) or \
+                            not mv.link_up(nxt[0], nxt[1], (l + 3) % 6) or \
+                            nxt in out_:
+                        return None
+                    out_.append(nxt)
+                return out_
+            cands = [r for r in (run_of(xy, l) for xy in chips
+                                 for l in range(6)) if r]
+            if cands:
+                for v, xy in zip(line, cands[t.draw(len(cands))]):
+                    if v not in group_of:
+                        out.append(cons.LocationConstraint(v, xy))
+                        g.located[v] = xy
         for v in vs:
             res = g.vertices_resources[v]
             if res.get(self.R.Cores, 1) == 0 and t.draw(2):
@@ -375,8 +396,30 @@ class DeployEngine(object):
             n_ops = t.op_count(0, 20)
             for _ in range(n_ops):
                 t.next_segment()
-                prgen.add_net(t, g, R)
+                if not g.relay_only:
+                    prgen.add_net(t, g, R)
             t.begin_tail()
+            if g.relay:
+                # a relay line: one source and a few sinks on consecutive
+                # chips of a straight line (pinned there once the machine is
+                # known), a group of nets to each - so that on the chips in
+                # between one group passes straight through while another
+                # ends there
+                HNet = prgen.net_class()
+                line = [prgen.new_vertex(t, g, R, kind=0)
+                        for _ in range([3, 3, 4, 5][t.draw(4)])]
+                g.corridor = line
+                for j in range(1, len(line)):
+                    # (about as many nets as one cube has keys)
+                    for _ in range(2 if g.cube_sparse else max(
+                            1, (1 << g.cube_k) + [0, 0, -1, 1][t.draw(4)])):
+                        net = HNet(line[0], [line[j]], 1.0, ident=len(g.nets))
+                        g.nets.append(net)
+                        g.net_keys[net] = (len(g.nets) << 12, 0xffffffff)
+                w.probe("relay_line")
+            if g.cube_keys and g.nets:
+                prgen.assign_cube_keys(t, g)
+                w.probe("cube_structured_keys")
             # a few more unconnected vertices
             for _ in range(t.draw_small(6, 0.5)):
                 prgen.new_vertex(t, g, R)
